@@ -281,6 +281,7 @@ func runC13(r *Run) {
 	r.c13ReentrantHandler()
 	r.c13TextMessages()
 	r.c13TwoClients()
+	r.c13ReadBeforeRegistration()
 }
 
 // c13TextMessages: a WebSocket peer (or gateway) may carry frames in text messages as well as binary ones.
@@ -431,4 +432,66 @@ func (r *Run) c13ReentrantHandler() {
 	}
 	r.st.Evaluations++
 	r.count("c13.tcp.reentrant-handler")
+}
+
+// c13ReadBeforeRegistration: the connection delivers pushes and is then dropped by the peer in the window between the
+// dialer's return and the registration of the client's packet callback (dial.before-onpacket gate); the frames the
+// reader has already queued are still owed to the handlers.
+func (r *Run) c13ReadBeforeRegistration() {
+	for _, trans := range []string{"tcp", "ws"} {
+		hub.reset()
+		g := hub.arm("dial.before-onpacket", nil)
+		var mu sync.Mutex
+		var got []string
+		s := &session{tc: newTestClient(), v: 1, trans: trans}
+		s.tc.cli.Subscribe(50, func(p *protocol.Packet) { mu.Lock(); got = append(got, string(p.Body)); mu.Unlock() })
+		opts := []client.DialOption{client.DialTimeout(fDial), client.Keepalive(time.Hour), client.KeepaliveTimeout(2 * time.Hour)}
+		errc := make(chan error, 1)
+		var l1 link
+		if trans == "tcp" {
+			s.tcp = newTCPPeer()
+			go func() { errc <- s.tc.dial(s.tcp.url(), 1, opts...) }()
+			if pc := s.tcp.accept(3 * time.Second); pc != nil && pc.readHandshake(2*time.Second) {
+				l1 = tcpLink{pc}
+			}
+		} else {
+			s.ws = newWSPeer()
+			go func() { errc <- s.tc.dial(s.ws.url(), 1, opts...) }()
+			if pc := s.ws.accept(3 * time.Second); pc != nil {
+				l1 = wsLink{pc, 1}
+			}
+		}
+		cs := trans + ": 3 pushes, then the peer drops the connection, all before Dial has registered the packet callback (keepalive 1 h)"
+		if l1 != nil && g.waitParked(2*time.Second) {
+			for i := 1; i <= 3; i++ {
+				l1.sendFrame(pushFrame(1, 50, []byte(fmt.Sprintf("e%d", i))))
+			}
+			time.Sleep(50 * time.Millisecond)
+			l1.drop()
+			s.tc.log.waitCount("close conn, err", 1, 2*time.Second) // the reader has queued the frames and closed the connection
+			g.open()
+			hub.reset()
+			select {
+			case <-errc:
+			case <-time.After(3 * time.Second):
+			}
+			ok := waitUntil(2*time.Second, func() bool { mu.Lock(); defer mu.Unlock(); return len(got) >= 3 })
+			mu.Lock()
+			if !ok || strings.Join(got, ",") != "e1,e2,e3" {
+				r.violate(Violation{What: "pushes read from the connection before the packet callback was registered never reached their handler although nothing overflowed", Case: cs,
+					Impl: strings.Join(got, ","), Expect: "e1,e2,e3", Extra: strings.Join(s.tc.log.snapshot(), "\n")})
+			}
+			mu.Unlock()
+		} else {
+			g.open()
+			hub.reset()
+			select {
+			case <-errc:
+			case <-time.After(3 * time.Second):
+			}
+		}
+		r.st.Evaluations++
+		r.count("c13.read-before-registration." + trans)
+		s.close()
+	}
 }
